@@ -469,10 +469,10 @@ def proc_run(names, seed):
     return dict(error=p.stderr.decode(errors="replace")[-1500:])
 
 
-def run_process(ctx, variant):
+def run_process(ctx, variant, only=None):
     from concurrent.futures import ThreadPoolExecutor
 
-    groups = PROC_GROUPS_QUICK if ctx.quick else PROC_GROUPS_THOROUGH
+    groups = [list(only)] if only else (PROC_GROUPS_QUICK if ctx.quick else PROC_GROUPS_THOROUGH)
     names = sorted(set(n for g in groups for n in g))
     with ThreadPoolExecutor(4) as ex:
         iso = dict(zip(names, ex.map(lambda n: proc_run([n], ctx.seed), names)))
@@ -482,7 +482,7 @@ def run_process(ctx, variant):
     iso = {n: r[0] for n, r in iso.items()}
     sysrec = {n: iso[n]["record"] for n in names}
     inputs = {n: iso[n]["inputs"] for n in names}
-    maxlen = 2 if ctx.quick else 3
+    maxlen = max(2 if ctx.quick else 3, len(only or ()))
 
     def module(events):
         if events is None:
@@ -496,7 +496,7 @@ def run_process(ctx, variant):
         return ("CONSTANTS\n Systems <- MCSystems\n Inputs <- MCInputs\n ProcSystems <- MCProc\n" + ev +
                 " Variant = \"%s\"\n MaxLen = %d\n Policies = %s\nCHECK_DEADLOCK FALSE\n" % (variant, maxlen, policies))
     # (1) the model: every ordered history of colliding crystals under every memo policy
-    cfg = ("INIT PInit\nNEXT PNext\n" + base('{"none", "contents", "s2p_shape", "natoms"}') +
+    cfg = ("INIT PInit\nNEXT PNext\n" + base('{"contents", "s2p_shape", "natoms"}') +
            "ALIAS Alias\nINVARIANT HistoryIndependent\nINVARIANT CoarseMemoInvisible\n")
     res = ctx.tlc("MC_SymProcess", cfg_text=cfg, extra_files={"MC_SymProcess.tla": module(None)}, requirement=False,
                   workers=WORKERS, extra_args=("-continue",), keep=True, timeout=3000)
@@ -513,13 +513,15 @@ def run_process(ctx, variant):
     ctx.extra["process_model_states"] = res.distinct
     ctx.extra["process_histories_where_a_coarse_memo_shows"] = len(disc)
     tlcmod.cleanup(res)
-    if not disc:
+    if not disc and not only:
         raise tlcmod.MachineryError("no history on which a coarse memo would show: the process systems do not collide")
     # (2) replay: those histories (both orders occur), each in one real process
     hs = sorted(disc, key=lambda h: (0 if "s2p_shape" in disc[h] else 1, len(h), h))
     extra_pairs = [(a, b) for g in groups for a in g for b in g if a != b and (a, b) not in disc]
     cap = 16 if ctx.quick else 90
     todo = (hs + extra_pairs[: max(0, 4 if ctx.quick else 20)])[:cap]
+    if only:
+        todo = [tuple(only)]
     with ThreadPoolExecutor(4) as ex:
         runs = list(ex.map(lambda h: proc_run(h, ctx.seed), todo))
     events = []
@@ -602,6 +604,9 @@ def run_replay(ctx):
             ctx.violation("symmetrize:" + name, "C07 %s fails on the replayed case" % name,
                           dict(invariant=name, variant=variant, witness=witness(ev, systems)))
         return
+    if key.startswith("process:") and det.get("history"):
+        ctx.seed = d.get("seed", ctx.seed)
+        return run_process(ctx, "repaired", only=det["history"])
     if key.startswith("tlc:Symmetrize:") and w.get("sys"):
         case = "{Mk(%s, %s, %d, %s, %s)}" % (to_tla(w["sys"]), to_tla(w["route"]), w["level"],
                                             to_tla(dict(den=w["x"]["den"], a=list(w["x"]["a"]), ok=True)), to_tla(w["prep"]))
